@@ -191,7 +191,7 @@ ORDINARY = {
 _OWN = {"en": ["point"], "fr": ["virgule"], "es": ["coma"], "pt": ["vírgula"], "it": ["virgola"], "de": ["komma"], "nl": ["komma"]}
 for _l in ORDINARY:
     ORDINARY[_l] += [w for w in _SEPWORDS if w not in _OWN[_l]]
-SEPS = [" ", " ", " ", ", ", ". ", "; ", ": ", " - ", "-", " ", "  ", "\t", " . ", "! ", "? ", " (", ") ", "\n", ".", "\u00ad", " \u200b", "\ufeff ", "\u2060"]
+SEPS = [" ", " ", " ", ", ", ". ", "; ", ": ", " - ", "-", " ", "  ", "\t", " . ", "! ", "? ", " (", ") ", "\n", ".", "\u00ad", " \u200b", "\ufeff ", "\u2060", "\u2010", "\u2011", "\u2013", "\u2014", "\u00b7", "\u2027", "/", "\u2026", " \u2013 "]
 DECSEP = {"en": "point", "fr": "virgule", "es": "coma", "pt": "vírgula", "it": "virgola", "de": "Komma", "nl": "komma"}
 
 _bank_cache = {}
@@ -343,6 +343,11 @@ def s_annot(tier, seed, out):
         # two ambiguous words in one text, every neighbour drawn from the WHOLE vocabulary of the language (the passes
         # probe their neighbours with a scratch builder: any word class may leave something behind)
         vocab_all = [w for w in bank(lang)["num"] if w and " " not in w and len(w) < 20]
+        # + hyphenated compounds of vocabulary words, the conjunction included (valid ones and ones that end mid-number)
+        cj = "and" if lang == "en" else "et"
+        base = [w for w in vocab_all if w.isalpha()]
+        vocab_all = vocab_all + [rng.choice(base) + "-" + cj for _ in range(40)] + [cj + "-" + rng.choice(base) for _ in range(20)] + \
+            [rng.choice(base) + "-" + rng.choice(base) for _ in range(60)]
         amb = "o" if lang == "en" else "neuf"
         dets = ["the", "a", "x"] if lang == "en" else ["un", "le", "du", "l'", "mon"]
         for _ in range(6000 if tier != "thorough" else 80000):
